@@ -1170,3 +1170,57 @@ func checkResultsPrivate(p *an.Prog, r *an.Run) {
 	}
 	r.Check(len(bad) == 0 && methods >= 20 && results > 0, "result-private", "drivers", token.NoPos, "no driver method returns a slice, map or pointer into the driver's own fields", "%s (methods judged: %d, reference-typed results: %d)", strings.Join(dedup(bad), "; "), methods, results)
 }
+
+// checkTTLDiscipline: records live until the store's own operations change them; the one kind of record that expires by
+// itself is the nonce. (a) Entry.WithTTL is called in the expiring-set helper only, with the helper's own duration
+// parameter as it stands (a rounded or truncated lifetime ends the nonce record before the nonce stops looking fresh);
+// (b) that helper is reached from CheckAndSaveNonce only (a "reasonable expiry for everything" deletes idle balances,
+// links and the version stamp).
+func checkTTLDiscipline(p *an.Prog, r *an.Run) {
+	var bad []string
+	nTTL, nExp := 0, 0
+	var expHelpers []*ssa.Function
+	for _, fn := range badgerPkgFuncs(p) {
+		if p.IsTestFunc(fn) {
+			continue
+		}
+		for _, c := range an.Calls(fn, false) {
+			f := an.CallObj(c)
+			if !an.IsMethod(f, badgerLib, "Entry", "WithTTL") || len(c.Common().Args) < 2 {
+				continue
+			}
+			nTTL++
+			top := fn
+			for top.Parent() != nil {
+				top = top.Parent()
+			}
+			expHelpers = append(expHelpers, top)
+			ttl := c.Common().Args[1]
+			isOwnParam := false
+			for _, prm := range fn.Params {
+				if ttl == ssa.Value(prm) {
+					isOwnParam = true
+				}
+			}
+			if !isOwnParam {
+				bad = append(bad, an.FuncName(fn)+" gives WithTTL at "+p.Pos(c.Pos())+" something other than its own duration parameter as it stands: a lifetime shortened on the way (rounded, truncated, capped) ends the record before its time")
+			}
+		}
+	}
+	for _, h := range expHelpers {
+		for _, site := range p.StaticSites(h) {
+			if p.IsTestFunc(site.Parent()) {
+				continue
+			}
+			nExp++
+			top := site.Parent()
+			for top.Parent() != nil {
+				top = top.Parent()
+			}
+			if top.Name() != "CheckAndSaveNonce" {
+				bad = append(bad, an.FuncName(top)+" stores a record with an expiry ("+an.FuncName(h)+" at "+p.Pos(site.Pos())+"): only nonce records may expire by themselves")
+			}
+		}
+	}
+	r.Check(len(bad) == 0 && nTTL > 0 && nExp > 0, "ttl", "badger", token.NoPos, "only nonce records expire, with the lifetime computed for them", "%s (WithTTL sites: %d, expiring-set call sites: %d)", strings.Join(dedup(bad), "; "), nTTL, nExp)
+}
